@@ -339,7 +339,8 @@ def main(tier):
     for F in feats:
         for _ in range(nper):
             d = docgen.gen_malformed(rng) if rng.random() < 0.1 else docgen.gen_doc(rng)
-            d = strip_triggers(rng, d, TRIG[F]).replace("\x00", "")
+            # NUL first: removing it after the stripping could join two halves of a trigger again
+            d = strip_triggers(rng, d.replace("\x00", ""), TRIG[F])
             o = docgen.gen_opts(rng, exclude=(F,))
             o.pop("experimental_minimize_commonmark", None)
             # the relaxed switches only act with their parent extension on
